@@ -3304,10 +3304,19 @@ func (lg *ledger) inBounds(i ssa.Value, lenKey string, b *ssa.BasicBlock) (bool,
 	if !(lower && upper) && len(b.Preds) > 1 && len(lg.extra) == 0 {
 		// no single fact covers every way into the block: each incoming edge on its own
 		all := true
-		for _, pr := range b.Preds {
+		phi, _ := i.(*ssa.Phi)
+		if phi != nil && phi.Block() != b {
+			phi = nil
+		}
+		for k, pr := range b.Preds {
 			lg.extra = edgeFacts(pr, b)
 			cs2 := lg.subFacts(lg.boundFacts(pr))
 			lg.extra = nil
+			ib, io := ib, io
+			if phi != nil && k < len(phi.Edges) {
+				// the index is the value that comes in over this edge (i, or the i+1 of a guarded step)
+				ib, io = lg.term(phi.Edges[k])
+			}
 			if !(entails(cs2, "0", ib, io) && entails(cs2, ib, lenKey, -io-1)) {
 				all = false
 				break
